@@ -21,7 +21,7 @@ def run(rep, tier, seed):
             key = f['driver']
             if key in seen: continue
             seen.add(key)
-            rep.violation('driver:' + (p.name if not p.name.startswith('rand') else 'program'), f['driver'],
+            rep.violation('driver:' + f['driver'], 'record=%s' % f['record_kind'],
                           'driver %s on program %s recorded as %s: got %s want %s %s' % (f['driver'], f['program']['stmts'], f['record_kind'], f.get('got'), f.get('want'), f.get('error', '')),
                           {'kind': 'driver', **f})
     rep.add_bounded('driver contracts', total, distinct,
